@@ -293,13 +293,16 @@ func (c *Collection) Pull(ctx context.Context, opts ...ReadOption) <-chan *Colle
 			}
 			change = change.filter(filter)
 			if c.equivalence != nil {
-				if old, ok := held[change.Id]; ok && old != change.OldValue {
+				old, holds := held[change.Id]
+				if holds && old != change.OldValue {
 					// writes in between were not reported: the old value is the one last sent
 					withHeld := *change
 					withHeld.OldValue = old
 					change = &withHeld
 				}
-				if c.equivalence.Compare(change.OldValue, change.NewValue) {
+				// a subscriber that holds nothing for this id - an updates-only subscription before its first
+				// event - has nothing the change could be equivalent to (Value.Pull behaves the same way)
+				if holds && c.equivalence.Compare(change.OldValue, change.NewValue) {
 					continue
 				}
 				if change.NewValue == nil {
